@@ -623,7 +623,8 @@ def trusted_scan(A):
     forbidden = []
     pat = re.compile(r"external_body|assume_specification|\baxiom\b|\bassume\s*\(|\badmit\s*\(|external_type_specification|"
                      r"uninterp\s+spec\s+fn|#\[verifier::external\]|verifier::truncate")
-    for text, org in A.segs:
+    segs = A.segs
+    for n, (text, org) in enumerate(segs):
         for m in pat.finditer(text):
             ln = text[:m.start()].count("\n")
             line_text = text.split("\n")[ln].strip()
@@ -632,10 +633,20 @@ def trusted_scan(A):
             if org["kind"] == "body" and re.search(r"assume\s*\(|admit\s*\(", m.group(0)):
                 forbidden.append(f"{org['file']}: {line_text}")
             if org["kind"] in ("tpl",):
-                out.append(f"{org['file']}:{org['line']}: {line_text[:160]}")
-            elif org["kind"] in ("spec", "closure", "loop") and re.search(r"assume|admit", m.group(0)):
+                shown = line_text
+                if re.fullmatch(r"#\[[^\]]*\]", line_text):
+                    # attribute-only line: show the item it decorates
+                    for t2, o2 in segs[n + 1:n + 6]:
+                        l2 = t2.strip()
+                        if l2 and not l2.startswith("#[") and not l2.startswith("//"):
+                            shown = line_text + " " + l2
+                            break
+                out.append(f"{org['file']}:{org['line']}: {shown[:200]}")
+            elif org["kind"] in ("spec", "closure", "loop", "ghost", "prologue") and re.search(r"assume|admit", m.group(0)):
                 forbidden.append(f"{org['file']}:{org.get('line')}: {line_text}")
-    return out, forbidden
+            elif org["kind"] == "edit" and "truncate" in m.group(0):
+                out.append(f"{org['file']}:{org.get('line')}: extraction edit attaches #[verifier::truncate] to an `as` cast of {org.get('item')} (Rust's wrapping cast semantics)")
+    return sorted(set(out)), forbidden
 
 
 def canary_rounds(A):
@@ -1025,6 +1036,34 @@ def cmd_mutants(args):
     return 1 if bad else 0
 
 
+def build_replay():
+    env = dict(os.environ, CARGO_NET_OFFLINE="true", CARGO_TARGET_DIR=os.path.join(WORK, "replay-target"))
+    rd = os.path.join(VERIF, "replay")
+    try:
+        import shutil
+        shutil.copyfile(os.path.join(REPO, "Cargo.lock"), os.path.join(rd, "Cargo.lock"))
+    except Exception:
+        pass
+    p = subprocess.run(["cargo", "build", "--offline", "--quiet"], cwd=rd, env=env, capture_output=True, text=True)
+    if p.returncode != 0:
+        return None, p.stderr[-2000:]
+    return os.path.join(WORK, "replay-target", "debug", "replay"), ""
+
+
+def cmd_replay(args):
+    if not args:
+        print("usage: check replay <file>")
+        return 2
+    binp, err = build_replay()
+    if binp is None:
+        print("replay tool does not build against the current /repo:\n" + err)
+        return 2
+    p = subprocess.run([binp, args[0]], capture_output=True, text=True)
+    sys.stdout.write(p.stdout)
+    sys.stderr.write(p.stderr)
+    return p.returncode
+
+
 def cmd_pin(args):
     fps = {}
     for u in list_units():
@@ -1060,6 +1099,8 @@ def main():
         return cmd_pin(args)
     if cmd == "mutants":
         return cmd_mutants(args)
+    if cmd == "replay":
+        return cmd_replay(args)
     print(__doc__)
     return 2
 
